@@ -433,4 +433,49 @@ def accessor (a : Acc) (gc : String → Option Inst) : Res :=
 def layerAccessor (a : Acc) (L : Layer) (p : Option String) : Res :=
   accessor a fun n => getComparam L n p
 
+/-! ## What a layer object keeps between calls (edit histories)
+
+A loaded database may be edited (raw COMPARAM-REF lists, parent refs, values, defaults — the way
+`examples/mksomersaultmodifiedpdx.py` edits one) and `Database.refresh()` called again. The only thing
+the communication-parameter machinery keeps on a layer object between two calls is `self._comparam_refs`,
+assigned by `_finalize_init` (hierarchyelement.py l.224); `comparam_refs` (l.548-555), `get_comparam`
+(l.578-611) and the typed accessors only *read* it and store nothing. An edit changes what the raw
+objects describe, not the stored list. -/
+
+structure LayerObj where
+  /-- what the raw objects reachable from the layer describe now -/
+  hier : Layer
+  /-- `self._comparam_refs` -/
+  refs : List Inst
+
+inductive HistOp where
+  /-- any modification of the raw objects: afterwards they describe `L'` -/
+  | edit (L' : Layer)
+  /-- `Database.refresh()` → `_finalize_init` → `self._comparam_refs = NamedItemList(self._compute_…())` -/
+  | refresh
+  /-- `get_comparam(n, protocol=p)`, directly or through a typed accessor: a read -/
+  | query (n : String) (p : Option String)
+
+def HistOp.isQuery : HistOp → Bool
+  | .query _ _ => true
+  | _ => false
+
+def LayerObj.step (o : LayerObj) : HistOp → LayerObj
+  | .edit L' => { o with hier := L' }
+  | .refresh => { o with refs := available o.hier }
+  | .query _ _ => o
+
+def LayerObj.run (o : LayerObj) (ops : List HistOp) : LayerObj := ops.foldl LayerObj.step o
+
+/-- loading a document ends with `refresh()` -/
+def LayerObj.load (L : Layer) : LayerObj := ⟨L, available L⟩
+
+/-- `layer.get_comparam(n, protocol=p)` on the object as it is -/
+def LayerObj.getComparam (o : LayerObj) (n : String) (p : Option String) : Option Inst :=
+  getComparamIn o.refs n p
+
+/-- `layer.get_…(protocol=p)` on the object as it is -/
+def LayerObj.accessor (a : Acc) (o : LayerObj) (p : Option String) : Res :=
+  OdxVerif.Comparam.accessor a fun n => o.getComparam n p
+
 end OdxVerif.Comparam
